@@ -229,7 +229,7 @@ pub fn run(ctx: &Ctx) -> &'static str {
     ctx.explore(
         "ticks",
         "tick-by-tick histories of per-link bitrates (incl. totals at 99999/100000/100001), RTT samples and connectivity over 1..4 real connections with links joining, leaving and idling; regimes repeated 1..20 ticks so 15-tick streaks occur; verdict-sequence monitor; non-trivial = >=1 probation window or >=1 enter/leave transition",
-        ctx.tier.pick(30_000, 600_000),
+        ctx.tier.pick(150_000, 1_500_000),
         || strategy(mt),
         |_| check,
     );
